@@ -1657,8 +1657,9 @@ def deep_enc_part(ctx: vlib.Ctx, mod, mem: Members):
 
 def ascii_only_str(subs) -> bool:
     """values the structural model can represent: ASCII text, and no instance of a str/list/tuple/dict SUBCLASS
-    (a str-mixin enum member is iterable like a str, which the (class, repr) encoding of objects does not show)"""
+    (a str-mixin enum member is iterable like a str, bytes iterate as ints: the (class, repr) encoding of objects does not show that)"""
     return (all((type(x) is not str) or x.isascii() for x in subs)
+            and all(not isinstance(x, (bytes, bytearray)) for x in subs)     # iterable, but an opaque object in the model
             and all(type(x) in (str, list, tuple, dict) or not isinstance(x, (str, list, tuple, dict)) for x in subs))
 
 
